@@ -121,3 +121,81 @@ class StrayBom(BObl):
 
 
 OBLIGATIONS.append(StrayBom())
+
+
+class CommentToken(BObl):
+    """A comment is `//` up to (not including) the end of its line, or `/*` up to the first `*/` — nothing else.  A
+    comment token that reaches further (a backslash continuation, a nested form) would hide whatever stands on the
+    next line from the grammar, so a fault there would be accepted."""
+    id = 'C07.B.comment-token'
+    property = 'C07'
+    rule = ('the live `comment` element of pydbml.definitions.common scanned over `//w` and `/*w` for every word w over '
+            '{/ * \\ newline a space}: the matched span must be the documented one (line comment: up to the next newline '
+            'or the end; block comment: up to and including the first */, no match without one); then, through the '
+            'parser, a fault line placed after a comment ending in each such word must be rejected')
+    bound = 'exhaustive: 2 openers x all words of length <= 4 over a 6-letter alphabet (3110 spans) + 2 x 259 words (length <= 3) x 3 fault documents'
+    budget = {'quick': 25.0, 'thorough': 60.0}
+    chunk = 128
+    ALPHA = ['/', '*', '\\', '\n', 'a', ' ']
+
+    def cases(self, tier, seed):
+        import itertools
+        for n in range(0, 5):
+            for w in itertools.product(self.ALPHA, repeat=n):
+                for op in ('//', '/*'):
+                    yield {'kind': 'span', 'open': op, 'w': ''.join(w)}
+        for n in range(0, 4):
+            for w in itertools.product(self.ALPHA, repeat=n):
+                for op in ('//', '/*'):
+                    for doc in ('column', 'top', 'enum'):
+                        yield {'kind': 'fault', 'open': op, 'w': ''.join(w), 'doc': doc}
+
+    def exhaustive(self, tier):
+        return True
+
+    def check(self, r):
+        import pyparsing as pp
+        op, w = r['open'], r['w']
+        if r['kind'] == 'span':
+            import pydbml.definitions.common as C
+            text = op + w
+            if op == '//':
+                want = text.find('\n')
+                want = len(text) if want < 0 else want
+            else:
+                k = w.find('*/')
+                want = None if k < 0 else 2 + k + 2
+            try:
+                got = None
+                for _t, s, e in C.comment.scan_string(text, max_matches=1):
+                    got = e if s == 0 else None
+            except pp.ParseBaseException:
+                got = None
+            if got != want:
+                return (f'comment-span:{"line" if op == "//" else "block"}:{"longer" if (got or 0) > (want or 0) else "shorter"}',
+                        f'{text!r}: comment matched up to {got}, documented span ends at {want}')
+            return None
+        from pydbml import PyDBML
+        if op == '//':
+            com = '//' + w.replace('\n', ' ')           # one line
+        else:
+            com = '/*' + w.replace('*/', '* /') + '*/'
+        docs = {'column': ('Table t {{\n  id int {C}\n  {F}\n}}\n', 'other int int'),
+                'top': ('Table t {{\n  id int\n}}\n{C}\n{F}\nTable u {{\n  id int\n}}\n', 'Tabel x {'),
+                'enum': ('Enum e {{\n  a {C}\n  {F}\n  b\n}}\n', 'b [')}
+        tpl, fault = docs[r['doc']]
+        good, bad = tpl.format(C=com, F=''), tpl.format(C=com, F=fault)
+        try:
+            PyDBML(good)
+        except Exception:      # noqa: BLE001 - the comment itself is not acceptable here: proves nothing
+            return None
+        try:
+            PyDBML(bad)
+        except pp.ParseBaseException:
+            return None
+        except Exception as e:     # noqa: BLE001
+            return (f'wrong-exception:{type(e).__name__}', bad)
+        return (f'fault-after-comment-accepted:{r["doc"]}', f'accepted:\n{bad}')
+
+
+OBLIGATIONS.append(CommentToken())
